@@ -1,4 +1,4 @@
-(* C09: letter case, cache characters, and exactly when the request decoder panics. *)
+(* C09 / C12: letter case, cache characters, and totality of the request decoder. *)
 From Coq Require Import List NArith ZArith Bool Arith Lia String.
 From Coq Require Import ZifyN ZifyNat ZifyBool.
 From SA Require Import Base.Tok Codec.Bits Codec.B85 Codec.B91 Codec.B128 Codec.B192 Codec.Codec Gen.Alphabets.
@@ -106,83 +106,67 @@ Proof.
   apply np_bind; [apply read_le32_np|]. intros [f ?]. reflexivity.
 Qed.
 
-Lemma header_ok c b r1 r2 r3 rest :
-  is_panic (decode_header c (b :: r1 :: r2 :: r3 :: rest)) = false.
+Lemma decode_header_np c req : is_panic (decode_header c req) = false.
 Proof.
-  unfold decode_header. destruct (cmd_needs_uid c); [|reflexivity].
+  unfold decode_header. destruct req as [|? [|? [|? [|? rest]]]]; try reflexivity.
+  destruct (cmd_needs_uid c); [|reflexivity].
   destruct rest as [|x [|y rest']]; try reflexivity. destruct (undigit36 x), (undigit36 y); reflexivity.
 Qed.
 
-Lemma body_np e k rest uid : (k = KDownTest -> rest <> []) ->
-  is_panic (match k with
-            | KVersion => do d <- decode Base32 rest ;; do '(v, _) <- read_le32 d ;; Ok (RVersion v)
-            | KPacket => do d <- decode e rest ;; decode_packet uid d
-            | KSetOptions => do d <- decode Base32 rest ;; decode_options uid d
-            | KFragSize => do d <- decode Base32 rest ;; do '(v, _) <- read_le32 d ;; Ok (RFragSize uid v)
-            | KUpTest => Ok (RUpTest uid rest)
-            | KDownTest =>
-              match rest with
-              | [] => Panic site_downtest
-              | b :: _ => match from_code b with Some c => Ok (RDownTest c) | None => Err (wd "codec") end
-              end
-            end) = false.
+Lemma decode_kind_np e k c req : is_panic (decode_kind e k c req) = false.
 Proof.
-  intros Hk. destruct k.
+  unfold decode_kind. apply np_bind; [apply decode_header_np|]. intros [rest uid]. destruct k.
   - apply np_bind; [apply decode_no_panic|]. intros d. apply np_bind; [apply read_le32_np|]. intros [v ?]. reflexivity.
   - apply np_bind; [apply decode_no_panic|]. intros d. apply decode_options_np.
   - apply np_bind; [apply decode_no_panic|]. intros d. apply np_bind; [apply read_le32_np|]. intros [v ?]. reflexivity.
-  - destruct rest as [|b rest']; [exfalso; apply Hk; reflexivity|]. destruct (from_code b); reflexivity.
+  - destruct rest as [|b rest']; [reflexivity|]. destruct (from_code b); reflexivity.
   - reflexivity.
   - apply np_bind; [apply decode_no_panic|]. intros d. apply decode_packet_np.
 Qed.
 
-(* DecodeDnsRequest panics exactly when the guard fails *)
-Theorem request_total_partial : forall e x, is_panic (decode_request e x) = negb (no_panic_guard x).
+(* DecodeDnsRequest never panics: for every upstream codec and every octet string, the empty one included *)
+Theorem request_total : forall e x, is_panic (decode_request e x) = false.
 Proof.
-  intros e x. destruct x as [|b t]; [reflexivity|].
-  unfold decode_request, no_panic_guard.
-  destruct (find (fun c => is_of_type c b) commands) as [c|] eqn:Ef; [|reflexivity].
-  apply find_some in Ef. destruct Ef as [Hin _].
-  destruct (cmd_new c) as [k|] eqn:Ek; [|reflexivity].
-  destruct t as [|r1 [|r2 [|r3 rest]]]; try reflexivity.
-  cbn in Hin.
-  destruct Hin as [<-|[<-|[<-|[<-|[<-|[<-|[<-|[<-|[<-|[]]]]]]]]]]; cbn in Ek; try discriminate Ek.
-  all: injection Ek as Ek'; subst k.
-  all: unfold decode_kind, decode_header; cbn [cmd_needs_uid cmd_version cmd_options cmd_fragsize cmd_downtest cmd_uptest cmd_packet].
-  - (* v *) cbn [bind]. apply (body_np e KVersion rest 0). intros H; discriminate H.
-  - (* o *) destruct rest as [|x [|y rest']]; try reflexivity.
-    destruct (undigit36 x), (undigit36 y); try reflexivity. cbn [bind].
-    apply (body_np e KSetOptions). intros H; discriminate H.
-  - (* r *) destruct rest as [|x [|y rest']]; try reflexivity.
-    destruct (undigit36 x), (undigit36 y); try reflexivity. cbn [bind].
-    apply (body_np e KFragSize). intros H; discriminate H.
-  - (* y *) cbn [bind]. destruct rest as [|x rest']; [reflexivity|]. cbn [is_nil negb].
-    destruct (from_code x); reflexivity.
-  - (* z *) destruct rest as [|x [|y rest']]; try reflexivity.
-    destruct (undigit36 x), (undigit36 y); reflexivity.
-  - (* c *) destruct rest as [|x [|y rest']]; try reflexivity.
-    destruct (undigit36 x), (undigit36 y); try reflexivity. cbn [bind].
-    apply (body_np e KPacket). intros H; discriminate H.
+  intros e x. destruct x as [|b t]; [reflexivity|]. unfold decode_request.
+  destruct (find (fun c => is_of_type c b) commands) as [c|]; [|reflexivity].
+  destruct (cmd_new c) as [k|]; [|reflexivity]. apply decode_kind_np.
 Qed.
 
-Corollary request_no_panic : forall e x, no_panic_guard x = true -> forall s, decode_request e x <> Panic s.
+Corollary request_no_panic : forall e x s, decode_request e x <> Panic s.
+Proof. intros e x s E. pose proof (request_total e x) as H. rewrite E in H. discriminate H. Qed.
+
+(* the inputs that used to panic are errors now *)
+Example request_reserved : decode_request Base32 [109; 97; 105; 108] = Err (wd "command").
+Proof. reflexivity. Qed.
+Example request_short : decode_request Base32 [118; 97] = Err (wd "short").
+Proof. reflexivity. Qed.
+Example request_probe : decode_request Base32 [121; 97; 97; 97] = Err (wd "nocodec").
+Proof. reflexivity. Qed.
+Example request_empty : decode_request Base32 [] = Err (wd "command").
+Proof. reflexivity. Qed.
+
+(* ------------------------------------------------------------------ *)
+(* StripDomain / ComposeRequest for one question never panic *)
+
+Lemma strip_loop_np : forall n data acc, (length data <= n)%nat -> exists r, strip_loop data acc = Ok r.
 Proof.
-  intros e x Hg s E. pose proof (request_total_partial e x) as H. rewrite E, Hg in H. discriminate H.
+  induction n as [|n IH]; intros data acc Hn.
+  - destruct data; [eexists; reflexivity | cbn in Hn; lia].
+  - destruct data as [|c t]; [eexists; reflexivity|]. cbn [length] in Hn. cbn [strip_loop].
+    destruct (c =? c_dot); [apply IH; lia|].
+    destruct (negb (c =? c_bsl)); [apply IH; lia|].
+    destruct t as [|a t1]; [eexists; reflexivity|]. cbn [length] in Hn.
+    destruct t1 as [|b [|d t']]; try (apply IH; cbn [length] in *; lia).
+    destruct (is_digit a && is_digit b && is_digit d); apply IH; cbn [length] in *; lia.
 Qed.
 
-(* total decoding is refuted: a name such as mail.<domain>. reaches a command without a request type;
-   a bare command letter is sliced beyond its length *)
-Theorem request_panics_refuted : exists x e s, decode_request e x = Panic s.
-Proof. exists [109; 97; 105; 108], Base32, site_decode. reflexivity. Qed.
-
-Example request_panics_short : decode_request Base32 [118; 97] = Panic site_header.
-Proof. reflexivity. Qed.
-Example request_panics_probe : decode_request Base32 [121; 97; 97; 97] = Panic site_downtest.
-Proof. reflexivity. Qed.
-Example request_panics_empty : decode_request Base32 [] = Panic site_decode.
-Proof. reflexivity. Qed.
+Theorem strip_domain_total : forall data dom, is_panic (strip_domain data dom) = false.
+Proof.
+  intros data dom. unfold strip_domain. destruct (all_ascii data && all_ascii dom); [|reflexivity].
+  destruct (strip_loop_np _ (cut_domain data dom) [] (le_n _)) as [r ->]. reflexivity.
+Qed.
 
 Print Assumptions letter_case.
 Print Assumptions cache_ignored.
-Print Assumptions request_total_partial.
-Print Assumptions request_panics_refuted.
+Print Assumptions request_total.
+Print Assumptions strip_domain_total.
